@@ -4,6 +4,7 @@ tie: translator + differential of Model/Options.dispatch / run_history / head_co
      ScenarioRunner.set_depending_on_option, direct Scenarios setter calls and animal_populations.main;
 audit: the clauses of the property evaluated directly on the implementation (harness/impl/c13_audit.py)."""
 import json
+import os
 from concurrent.futures import ThreadPoolExecutor
 
 from lib import fq, fql, cstr, clist
@@ -442,8 +443,18 @@ def correspondence(ctx, info):
     dcases = gen_dispatch(ctx, info, all_iso)
     hcases = gen_history(ctx, info)
     heads = gen_head(ctx, info, all_iso)
+    # alter_scenario_if_known_to_fail: full product of the families its criteria mention, for every country of its table
+    # plus countries that are not in it
+    alter_fams = ["scenario", "shutoff", "meat_strategy", "cull", "ratio_stocks_untouched", "crop_disruption"]
+    alter_fams += sorted({k for f in info["failing"] for k, _ in f["conds"]} - set(alter_fams))
+    alter_fams = [f for f in alter_fams if f in info["accepted"]]
+    table_c = sorted({f["code"] for f in info["failing"]})
+    extra_c = [c for c in ["USA", "IND"] + ([] if ctx.quick else ctx.rng.sample(all_iso, 12)) if c not in table_c]
+    alter_spec = {"fams": [[f, info["accepted"][f]] for f in alter_fams],
+                  "rest": [[k, v] for k, v in BASE_C if k not in alter_fams], "countries": table_c + ["WOR"] + extra_c}
     res = ctx.run_impl("c13_impl", {"dispatch": [{"opts": c["opts"], "row": c["row"]} for c in dcases],
-                                    "history": [{"calls": c["calls"], "row": c["row"]} for c in hcases], "head": heads})
+                                    "history": [{"calls": c["calls"], "row": c["row"]} for c in hcases], "head": heads,
+                                    "alter": alter_spec})
     rows = res["rows"]
     terms = []
     dist = {}
@@ -484,9 +495,34 @@ def correspondence(ctx, info):
         terms.append((None, f"(if {reach} then check_head {cstr(h['key'])} {obs} else match {obs} with None => 0%nat | Some _ => 3%nat end)",
                       ("head", h, r)))
         ctx.count(("head", h["key"], h["code"]), nontrivial=len(cols) == 1)
+    # alter: one Coq term per country, the whole product enumerated inside Coq
+    al = res["alter"]
+    fams_t = clist([f"({cstr(f)}, {clist([cstr(v) for v in vs])})" for f, vs in alter_spec["fams"]])
+    rest_t = copts(alter_spec["rest"])
+    table_t = clist([cstr(t) for t in al["table"]])
+    ncomb = 1
+    for _, vs in alter_spec["fams"]:
+        ncomb *= len(vs)
+    for iso in alter_spec["countries"]:
+        exp = "[" + "; ".join(str(x) for x in al["outcomes"][iso]) + "]%nat"
+        terms.append((None, f"check_alter {fams_t} {rest_t} {cstr(iso)} {table_t} {exp}", ("alter", {"iso3": iso, "families": alter_fams}, {})))
+        ctx.count(("alter", iso), nontrivial=any(al["outcomes"][iso]), n=ncomb)
     codes = eval_cases(ctx, "c13", terms, rows)
     nbad = 0
     for code, (_, _, (stream, c, r)) in zip(codes, terms):
+        if code != 0 and stream == "alter":
+            # decode the first disagreeing combination
+            import itertools
+            combos = list(itertools.product(*[vs for _, vs in alter_spec["fams"]]))
+            combo = dict(zip(alter_fams, combos[code - 1])) if 0 < code <= len(combos) else {}
+            impl_out = al["table"][al["outcomes"][c["iso3"]][code - 1]] if combo else "?"
+            nbad += 1
+            ctx.tie_ok = False
+            ctx.broken.append("correspondence alter_scenario_if_known_to_fail")
+            ctx.violation("C13:tie:alter", f"model and implementation disagree on alter_scenario_if_known_to_fail for {c['iso3']} with {combo}: "
+                          f"implementation returns '{impl_out}'", {"kind": "tie-broken", "stream": "alter", "iso3": c["iso3"], "combination": combo,
+                                                                  "implementation": impl_out})
+            continue
         if code != 0:
             nbad += 1
             if nbad <= 4:
@@ -497,6 +533,8 @@ def correspondence(ctx, info):
                 ctx.violation(f"C13:tie:{stream}:{what}", f"model and implementation disagree ({what}) on {json.dumps(c)[:300]}",
                               {"kind": "tie-broken", "stream": stream, "case": c, "observed": small})
     ctx.notes["correspondence"] = {"dispatch_cases": len(dcases), "history_cases": len(hcases), "head_cases": len(heads),
+                                   "alter_countries": alter_spec["countries"], "alter_combinations_per_country": ncomb,
+                                   "alter_outcomes": al["table"],
                                    "disagreements": nbad, "distribution": dict(sorted(dist.items()))}
     acc = [t for t in terms if t[2][0] == "dispatch" and t[2][2]["ok"]]
     if acc:
@@ -517,8 +555,14 @@ def correspondence(ctx, info):
 def audit(ctx, info):
     rng = ctx.rng
     payload = {"tier": ctx.tier, "seed": rng.randint(0, 1 << 30), "bases": {"G": BASE_G, "C": BASE_C, "C2": BASE_C2},
-               "special_rows": SPECIAL_ROWS}
+               "special_rows": SPECIAL_ROWS, "recorded_rewrites": load_recorded_rewrites()}
     res = ctx.run_impl("c13_audit", payload)
+    if os.environ.get("C13_RECORD_REWRITES") == "1" and res.get("found_rewrites") is not None and ctx.tier == "thorough":
+        # generated ONCE from the unchanged tree (thorough tier = every country); committed; never written otherwise
+        os.makedirs(os.path.dirname(REWRITES), exist_ok=True)
+        json.dump({"_comment": "option combinations for which alter_scenario_if_known_to_fail replaces an option (the maintainers' "
+                               "documented exceptions), recorded from the unchanged tree; any other rewriting combination is reported",
+                   "rewrites": res["found_rewrites"]}, open(REWRITES, "w"), indent=0)
     ctx.notes["audit"] = res["counts"]
     ctx.notes["observations"] = res["observations"]
     ctx.count(n=sum(res["counts"].values()))
@@ -534,9 +578,20 @@ def audit(ctx, info):
         ctx.log("audit failures:", len(res["failures"]), sorted(seen))
 
 
+REWRITES = "/verif/corpus/C13/known_rewrites.json"
+
+
+def load_recorded_rewrites():
+    try:
+        return json.load(open(REWRITES))["rewrites"]
+    except (OSError, ValueError, KeyError):
+        return None
+
+
 def replay(rep):
     import lib
     ctx = lib.Ctx("C13", "quick", rep.get("seed", 0))
-    res = ctx.run_impl("c13_audit", {"replay": rep, "bases": {"G": BASE_G, "C": BASE_C, "C2": BASE_C2}, "special_rows": SPECIAL_ROWS})
+    res = ctx.run_impl("c13_audit", {"replay": rep, "bases": {"G": BASE_G, "C": BASE_C, "C2": BASE_C2}, "special_rows": SPECIAL_ROWS,
+                                     "recorded_rewrites": load_recorded_rewrites()})
     print(json.dumps({k: res[k] for k in ("failures", "replayed")}, indent=1)[:4000])
     return 1 if res["failures"] else 0
